@@ -171,6 +171,8 @@ MutBases == IF Mode # "mutant" THEN {} ELSE
                                VStruct(<<I("int32", 127), VString(<<104,105>>)>>),
                                VList(<<VStruct(<<VBool(TRUE), VByte(3)>>)>>) } }
 
+BigSizes == { <<255,255,255,253,254>>, <<255,255,255,255,254>>, <<255,255,255,250,254>>, <<127,255,255,255,254>>, <<128,0,0,0,254>>,
+              <<0,1,0,0,254>>, <<255,255,253>>, <<0,0,253>>, <<1,0,0,0,0,0,0,0,255>> }
 Label(x) == LET r == Parse(x) IN [valid |-> r.ok, n |-> r.n]
 MutCase(base, x, how) == [mode |-> "mutant", how |-> how, base |-> base, x |-> x, spec |-> Label(x)]
 
@@ -216,6 +218,10 @@ Next ==
           \/ \E k \in 1..(Len(c.x) - 1) : c' = MutCase(c.base, DropFront(c.x, k), "dropfront")
           \/ \E i \in 1..Len(c.x) : Len(c.x) > 1 /\ c' = MutCase(c.base, DelByte(c.x, i), "delete")
           \/ \E i \in 1..(Len(c.x) + 1), b \in {0, 1, 253, 255} : c' = MutCase(c.base, InsByte(c.x, i, b), "insert")
+          \* a size field (one of the bytes before the type byte) replaced by a boundary size in its longest encodings:
+          \* sums of sizes that wrap 32 bits, sizes at the int32 limits, 65535/65536
+          \/ \E i \in {j \in (Len(c.x) - 3)..(Len(c.x) - 1) : j >= 1}, v \in BigSizes :
+                c' = MutCase(c.base, SubSeq(c.x, 1, i - 1) \o v \o SubSeq(c.x, i + 1, Len(c.x)), "bigsize")
     \/ /\ Mode = "mutant" /\ step = 1 /\ Level = 2 /\ c.how = "replace"
        /\ step' = 2
        /\ \E i \in 1..Len(c.x), b \in {0, 1, 253, 254, 255} : b # c.x[i] /\ c' = MutCase(c.base, Replace(c.x, i, b), "replace2")
